@@ -2,7 +2,7 @@
 # Runs every claimed check (quick tier by default) and prints one summary line each.
 cd /verif
 rc=0
-for p in C02 C03 C04 C05 C06 C07 C08 C09 C10 C11 C12 C13 C14 C15 C16 C17 C18 C19 C20; do
+for p in C01 C02 C03 C04 C05 C06 C07 C08 C09 C10 C11 C12 C13 C14 C15 C16 C17 C18 C19 C20; do
   out=$(bin/tinkverif check $p --tier ${1:-quick}); e=$?
   echo "$out" | grep -E '^(VIOLATION|KNOWN-FINDING)'; echo "$out" | tail -1
   [ $e -ne 0 ] && rc=1
